@@ -71,7 +71,7 @@ def items(tier: str) -> List[Any]:
             if s not in seen:
                 seen.add(s)
                 progs.append(s)
-    for s in c02.structural(tier) + odd_programs(tier):
+    for s in c02.structural(tier) + odd_programs(tier) + list(raw.dead_code(tier != "quick")):
         if s not in seen:
             seen.add(s)
             progs.append(s)
